@@ -15,7 +15,11 @@
 #define	RETURN(_code)	do {						\
 		asn_dec_rval_t rval;					\
 		rval.code = _code;					\
-		if(opt_ctx) opt_ctx->step = step; /* Save context */	\
+		if(opt_ctx) {						\
+			opt_ctx->step = step; /* Save context */	\
+			if(_code == RC_WMORE && expect_00_terminators)	\
+				opt_ctx->left = -expect_00_terminators;	\
+		}							\
 		if(_code == RC_OK || opt_ctx)				\
 			rval.consumed = consumed_myself;		\
 		else							\
@@ -76,6 +80,13 @@ ber_check_tags(const asn_codec_ctx_t *opt_codec_ctx,
 	int tlv_constr = -1;	/* If CHOICE, opt_tlv_form is not given */
 	int step = opt_ctx ? opt_ctx->step : 0;	/* Where we left previously */
 	int tagno;
+
+	/*
+	 * The indefinite length tags consumed by the earlier invocations
+	 * (restartable decoding) are remembered in the context.
+	 */
+	if(opt_ctx && step > 0 && opt_ctx->left < 0)
+		expect_00_terminators = -opt_ctx->left;
 
 	/*
 	 * Make sure we didn't exceed the maximum stack size.
